@@ -460,7 +460,7 @@ unsafe extern "C" fn add_to_additional(
 
 unsafe extern "C" fn raw_packet(
     parsed_packet: *const ParsedPacket,
-    raw_packet_: &mut [u8; DNS_MAX_UNCOMPRESSED_SIZE],
+    raw_packet_: *mut u8,
     raw_packet_len: *mut size_t,
     raw_packet_max_len: size_t,
 ) -> c_int {
@@ -470,7 +470,8 @@ unsafe extern "C" fn raw_packet(
         if packet_len > raw_packet_max_len {
             return -1;
         }
-        raw_packet_[..packet_len].copy_from_slice(packet);
+        // The caller's buffer is only known to hold `raw_packet_max_len` bytes.
+        slice::from_raw_parts_mut(raw_packet_, packet_len).copy_from_slice(packet);
         *raw_packet_len = packet_len;
         0
     }
@@ -621,7 +622,7 @@ pub struct FnTable {
     ) -> c_int,
     pub raw_packet: unsafe extern "C" fn(
         parsed_packet: *const ParsedPacket,
-        raw_packet_: &mut [u8; DNS_MAX_UNCOMPRESSED_SIZE],
+        raw_packet_: *mut u8,
         raw_packet_len: *mut size_t,
         raw_packet_max_len: size_t,
     ) -> c_int,
